@@ -114,8 +114,9 @@ PROPS = {
             "interface stand-ins: KvDatabase / KvWriteBatch / KvSerializationBuffer (3 methods used, with ghost tag/pending), crossbeam_channel (send succeeds; recv arbitrary), AtomicBool (load arbitrary), WriteBatch{epoch,active} and WriteBehind{serialize_sender} field subsets, WriteBatch::write_to_db",
             "std models: BinaryHeap (abstract-order view, peek/pop return a greatest element w.r.t. Ord), mem::replace/take/drop, derived Ord for Epoch",
             "termination of the two receive loops is not verified (depends on channel close)",
+            "c10_coalesce, write_to_db (rule R16): `WriteEntry::write_to_db` of TypedWideColumnWrites and of TypedKeyOfSetWrites (nested loops over the hash maps) is proved to hand the serialization buffer exactly one operation per staged slot -- put/delete resp. insert_member/delete_member exactly as staged, with the staged key, element and value -- in some order of the (distinct) slots; the buffer is a type-erased ghost log (events ev_put/ev_del/ev_ins/ev_rem)",
             "c10_coalesce: what one batch carries -- TypedWideColumnWrites::insert and TypedKeyOfSetWrites::insert are proved to be last-writer-wins steps per key resp. per (key, element), and the steps compose (lemma_wide_step / lemma_set_step) to 'the batch holds the net effect of the staged operations in issue order'; std's HashMap Entry API is a trusted in-unit model (rule R15: Entry/OccupiedEntry/VacantEntry over the reborrowed map with prophecy contracts); keys obey the hash-key laws (axiom_key_types)",
-            "not under contract: WideColumnWrites::put / KeyOfSetWrites::put (TypeId-keyed maps of Box<dyn WriteEntry>, downcast), write_to_db of the typed writes (HashMap iteration order: any order is equivalent because a batch holds at most one operation per slot -- proved above -- but the iteration itself is not under contract), WriteBufferPool::get_buffer/return_buffer (stand-in: a buffer may be recycled only after `notified(its epoch)`), Drop for WriteBehind, WriteBehind::new; after_commit_worker IS under contract: every received batch is notified with its own epoch and only then recycled, or deactivated when shutting down (WriteBatch::after_commit itself -- maps of dyn WriteEntry -- is a stand-in raising the event `notified`)",
+            "not under contract: WideColumnWrites::put / KeyOfSetWrites::put (TypeId-keyed maps of Box<dyn WriteEntry>, downcast), WriteBufferPool::get_buffer/return_buffer (stand-in: a buffer may be recycled only after `notified(its epoch)`), Drop for WriteBehind, WriteBehind::new; after_commit_worker IS under contract: every received batch is notified with its own epoch and only then recycled, or deactivated when shutting down (WriteBatch::after_commit itself -- maps of dyn WriteEntry -- is a stand-in raising the event `notified`)",
         ],
     },
     "C11": {
